@@ -7,7 +7,7 @@ from props import judges
 from props.common import TRUSTED_BASE, ASSUMPTIONS
 
 ID = "C17"
-LEAN_MODULES = ["LexVerif.Props.Literals.WriteFloatApi", "LexVerif.Props.C17", "LexVerif.Props.Literals.FacadeLib", "LexVerif.Props.Literals.CoreLib", "LexVerif.Props.Literals.WriteFloatOptions", "LexVerif.Props.Literals.UtilAscii"]
+LEAN_MODULES = ["LexVerif.Props.Literals.UtilApi", "LexVerif.Props.Literals.WriteFloatApi", "LexVerif.Props.C17", "LexVerif.Props.Literals.FacadeLib", "LexVerif.Props.Literals.CoreLib", "LexVerif.Props.Literals.WriteFloatOptions", "LexVerif.Props.Literals.UtilAscii"]
 GEN = ["write_tables", "literals"]
 TRUSTED = TRUSTED_BASE + [
     "lexical/src/lib.rs is a thin wrapper (vec of buffer_size bytes, core call, set_len, from_utf8_unchecked): compared op by op with the core "
